@@ -71,15 +71,16 @@ def run(tier, seed, t0):
     try:
         p4 = subprocess.run([exe, "c04", out4, str(seed), tier], cwd=vlib.ROOT, env=dict(vlib.GOENV), capture_output=True, text=True,
                             timeout=900 if tier == "quick" else 3000)
-        died = None if p4.returncode == 0 else (p4.stderr[:800] + " ... " + p4.stderr[-700:])
+        died = None if p4.returncode == 0 else (p4.stderr[:1500] + " ... " + p4.stderr[-700:])
     except subprocess.TimeoutExpired:
         died = "TIMEOUT"
     if died is not None:
-        if died == "TIMEOUT" or "stack overflow" in died or "goroutine stack exceeds" in died:
+        lib_panic = "panic:" in died and "github.com/tidwall/geojson" in died
+        if died == "TIMEOUT" or "stack overflow" in died or "goroutine stack exceeds" in died or lib_panic:
             v.violation({"property": PID, "event": {"op": "index-build-stage", "stderr_tail": died[-600:]},
                          "what": "building / searching the segment indexes over the series layouts of C04 %s" % (
                              "does not return (no progress for 15 minutes; the stage normally takes seconds)" if died == "TIMEOUT"
-                             else "kills the process with a stack overflow: " + died[:300].replace("\n", " "))})
+                             else ("panics inside the library: " if lib_panic else "kills the process with a stack overflow: ") + died[:300].replace("\n", " "))})
             open(os.path.join(out4, "c04.events.ndjson"), "w").close()
         else:
             raise vlib.Inconclusive("index-build stage of the harness failed:\n" + died)
